@@ -128,6 +128,9 @@ class BaseStandaloneNetworkServerImpl(AbstractNetworkServer, Generic[_T_AsyncSer
     @_utils.inherit_doc(AbstractNetworkServer)
     def shutdown(self, timeout: float | None = None) -> None:
         with self.__bootstrap_lock.get():
+            # The event of the serve_forever() call which is running *now*.
+            # A later serve_forever() call uses its own event and must not make this call wait for it.
+            is_shutdown = self.__is_shutdown
             if (portal := self.__threads_portal) is not None and (server := self.__server) is not None:
 
                 async def do_shutdown_with_timeout(server: AbstractAsyncNetworkServer, timeout: float) -> None:
@@ -149,7 +152,7 @@ class BaseStandaloneNetworkServerImpl(AbstractNetworkServer, Generic[_T_AsyncSer
                 # Do not wait outside of the lock: a serve_forever() starting in the meantime would block this call
                 # until somebody else stops that server.
                 return
-        self.__is_shutdown.wait(timeout)
+        is_shutdown.wait(timeout)
 
     def serve_forever(
         self,
@@ -189,8 +192,8 @@ class BaseStandaloneNetworkServerImpl(AbstractNetworkServer, Generic[_T_AsyncSer
             if not self.__is_shutdown.is_set():
                 raise ServerAlreadyRunning("Server is already running")
 
-            self.__is_shutdown.clear()
-            server_exit_stack.callback(self.__is_shutdown.set)
+            self.__is_shutdown = is_shutdown = _threading.Event()
+            server_exit_stack.callback(is_shutdown.set)
 
             def reset_values() -> None:
                 self.__threads_portal = None
